@@ -449,10 +449,17 @@ def prov_compare(ctx, a, b, r, problems):
     tmp = tempfile.mkdtemp(prefix="pvcmp", dir=os.environ.get("TMPDIR"))
     try:
         fa, fb = os.path.join(tmp, "a.json"), os.path.join(tmp, "b.json")
+        ta, tb = a.serialize(format="json"), b.serialize(format="json")
+        # the files are only a transport: whether PROV-JSON carries a document faithfully is C01's claim (open finding KF-C01-1);
+        # a document the transport does not carry is not put to prov-compare
+        for doc_, text in ((a, ta), (b, tb)):
+            if content(pm.ProvDocument.deserialize(content=text, format="json")) != content(doc_):
+                ctx.count("prov_compare.skipped_transport_not_faithful")
+                return
         with open(fa, "w") as f:
-            f.write(a.serialize(format="json"))
+            f.write(ta)
         with open(fb, "w") as f:
-            f.write(b.serialize(format="json"))
+            f.write(tb)
         e = dict(os.environ)
         e["PYTHONPATH"] = env.PROV_SRC
         for x, y in ((fa, fb), (fb, fa)):
